@@ -84,7 +84,27 @@ fn check_lossless(c: &mut Case, m: u8, mname: &str, class: &str, d: &[u8]) {
     // decompress with the true length under default limits, both entry points
     // decompress_secure also takes the file's name: the codec contract may not depend on it for sizes this small
     // (the nested-archive heuristic only concerns outputs > 50 MB)
-    for api in ["decompress", "decompress_secure", "decompress_secure:name.mpq", "decompress_secure:Dir\\data.ZIP", "decompress_secure:a.rar", "decompress_secure:b.7z", "decompress_secure:c.txt"] {
+    for (ai, api) in ["decompress", "decompress_secure", "decompress_secure:name.mpq", "decompress_secure:Dir\\data.ZIP", "decompress_secure:a.rar", "decompress_secure:b.7z", "decompress_secure:c.txt"].into_iter().enumerate() {
+        if ai == 1 || ai == 4 {
+            // what the codec answers may not depend on what the same thread decoded before: between two valid round trips the
+            // same selector is offered damaged streams (truncated, first byte altered, bytes that are no stream at all);
+            // what these calls answer is not judged here (errors expected; crashes are C05's subject)
+            let body = &out[1..];
+            let mut damaged: Vec<Vec<u8>> = vec![body[..body.len() / 2].to_vec(), b"this is not a compressed stream at all, just text".to_vec()];
+            if !body.is_empty() {
+                let mut f = body.to_vec();
+                let at = f.len() / 3;
+                f[at] ^= 0x5A;
+                damaged.push(f);
+            }
+            for dmg in &damaged {
+                c.count("disturbing_decompress_calls", 1);
+                match trap(|| decompress(dmg, m, len)) {
+                    Ok(Err(_)) => c.count("disturbing_decompress_calls_failed", 1),
+                    _ => {}
+                }
+            }
+        }
         let r = trap(|| {
             if api == "decompress" {
                 decompress(&out[1..], m, len)
